@@ -1326,6 +1326,29 @@ func (t *FnTrans) alloc(x *ssa.Alloc) {
 		}
 	}
 	t.vals[x] = Val{S: n, P: p}
+	if !x.Heap && p != nil && p.Kind == "cell" {
+		// a variable cell whose address never leaves this function (go/ssa's escape flag): no callee can change it
+		t.privCells = append(t.privCells, p)
+	}
+}
+
+// keepPrivateCells: snapshot the private variable cells before a total havoc; the returned function restores them
+func (t *FnTrans) keepPrivateCells() func() {
+	type kept struct{ comp, ref, pre string }
+	var ks []kept
+	for _, p := range t.privCells {
+		if _, ok := t.compSort[p.Comp]; !ok {
+			continue
+		}
+		ks = append(ks, kept{p.Comp, p.Ref, t.get(p.Comp)})
+	}
+	return func() {
+		for _, k := range ks {
+			if now := t.get(k.comp); now != k.pre {
+				t.set(k.comp, app("store", now, k.ref, app("select", k.pre, k.ref)))
+			}
+		}
+	}
 }
 
 // initLocks: mutexes embedded in a freshly allocated struct are unlocked.
